@@ -66,8 +66,25 @@ def run_property(modname, replay_path=None):
         if replay_path:
             with open(replay_path, encoding="utf-8") as f:
                 doc = json.load(f)
-            res = mod.replay(doc["witness"])
-            results = [res]
+            if getattr(mod, "REPLAY_BY_RERUN", False):
+                # deterministic, seeded workloads that take seconds: the replay re-executes the workload of the
+                # recorded tier and seed and keeps the observations with the recorded signature
+                os.environ["VERIF_TIER"] = str(doc.get("tier", "quick"))
+                os.environ["VERIF_SEED"] = str(doc.get("seed", 0))
+                results = run_sharded(mod.run_shard, mod.shards(tier(), seed()), workers=ncpu(),
+                                      timeout=getattr(mod, "WATCHDOG_S", 3600))
+                want = json.dumps(doc.get("signature"), sort_keys=True)
+                for r in results:
+                    r.violations = [(sg, w) for sg, w in r.violations if json.dumps(sg, sort_keys=True) == want]
+                    r.inconclusive = []
+                print("replay by re-running the recorded workload (tier %s, seed %s); signature sought: %s"
+                      % (doc.get("tier"), doc.get("seed"), want))
+            elif isinstance(doc.get("witness"), dict) and doc["witness"].get("engine") == "suite":
+                from . import suiteengine
+                results = [suiteengine.replay(doc["witness"], mod.ID)]
+            else:
+                res = mod.replay(doc["witness"])
+                results = [res]
         else:
             shards = mod.shards(tier(), seed())
             results = run_sharded(mod.run_shard, shards, workers=ncpu(),
